@@ -70,6 +70,10 @@ class ScopesDriver:
             w.do(str(args[0]), "enterprep")
         elif name == "ReEnter":
             w.do(str(args[0]), "reenter")
+        elif name == "GenEnter":
+            w.do(str(args[0]), "genenter", [tuple(p) for p in args[1]])
+        elif name == "GenCloseForeign":
+            w.do(str(args[0]), "genclose")
         elif name in ("Leave", "End"):
             w.do(str(args[0]), "leave", "return")
         elif name == "Try":
@@ -196,4 +200,4 @@ def gen_trace(rnd, ntasks=4, nops=28, max_depth=6):
 TRACE_KW = dict(
     variables=["st", "on", "ms", "tg", "frames", "base", "pc", "grp", "caught", "prep", "nsid", "nops", "actor", "obs"],
     constants=dict(NTasks=4, Types='{"A", "B"}', Vals="{1, 2}", MaxDepth=6, MaxOps=100000, SupKind='"tiny"', Bug='"none"', Prep="TRUE"),
-    config_vars=[], actions=dict(Enter=4, Leave=1, Start=3, End=1, Try=1, Raise=2, Prepare=3, EnterPrepared=1, ReEnter=1), invariants=["LexicalLookup", "ScopeIdsFresh"])
+    config_vars=[], actions=dict(Enter=4, Leave=1, Start=3, End=1, Try=1, Raise=2, Prepare=3, EnterPrepared=1, ReEnter=1, GenEnter=2, GenCloseForeign=1), invariants=["LexicalLookup", "ScopeIdsFresh"])
